@@ -9,6 +9,16 @@ What is checked per property
        bottom while a store exists, after every operation of a general history;
   C04  leq true => stores of the left are inside the right's printed intervals and exported
        constraints; join/meet results against the stores; reflexivity, bottom/top cases;
+  C03 and C04 also run the sub-stream "bool" (domall_extra.bool_histories): boolean
+       operations (b := constraint, (negated) copies, and/or/xor, select_bool, assume_bool,
+       weak assignments, b := trunc(v), zext) mixed with everything that invalidates what a
+       domain remembers about a boolean; q_bat = what is known about a boolean; leqprobe =
+       if s <= t is answered true, the stores of s that pass assume_bool(b) must be inside
+       what t reports after the same assume_bool (a value that remembers "b implies x <= 0"
+       does not include one that does not).  Most cases go to flat_boolean_numerical_domain
+       (bool-itv, bool-sparse), then to the domains that forward or interpret boolean
+       operations (uf, powersets, wrappers); for the others they are no-ops that must not
+       leave stale facts;
   C05  every step of a widening chain is sound and the chain stabilises (interval-shaped
        chains of checks/domcommon.py with its bound, relational chains with
        domall_extra.chain_bound), plus general histories with widening/narrowing;
@@ -68,7 +78,8 @@ EXCLUDED = {
     "boxes_domain": "needs the LDD library (not built in this tree)",
     "apron_domain / elina_domain (incl. pplite)": "external libraries not built in this tree",
     "array_smashing / array_adaptive / region_domain": "not numerical-only: searched by C14/C15",
-    "bitwise / unsigned / cast operators, boolean operations": "never generated (concrete meaning depends on the bit width)",
+    "bitwise / unsigned / cast operators": "never generated (concrete meaning depends on the bit width); the bool sub-stream uses zext bool->int and trunc int->bool of a value in {0,1}, which mean the same on every reading",
+    "assign_bool_ref_cst, backward boolean operations, linear constraints over boolean variables": "reference constraints need a region domain (C15); assume/assign over booleans are rejected by crab's type checker",
 }
 CHECKS = {"C03": ("at", "entails", "csts", "bot"), "C04": ("leq", "at", "bot", "csts"),
           "C05": ("at", "csts", "bot", "leq"), "C16": ("at", "entails", "csts", "bot", "leq", "botcsts")}
@@ -373,12 +384,14 @@ def run_domain(prop, tier, seed, dom, exe, n, known, shrink_ok, base_answers):
         # their invalidation, boolean combinations, assume_bool, lattice operations and inclusion
         # on values that remember constraints.  Most cases go to the domains that implement
         # booleans; for the others the boolean operations are no-ops that must not leave stale facts.
+        tb = time.time()
         nbool = bool_sizes(tier, prop, dom)
         bl = [X.ascending_widen(l) if dom.get("asc_widen") else l for l in X.BOOL_CORPUS]
         bl += X.bool_histories(seed + 77 + zlib_id(prop), nbool, prop, asc_widen=dom.get("asc_widen", False))
         ba = run_cases(exe, name, bl, os.path.join(outd, stream + "-bool.cases"))
         examine(res, prop, dom, exe, stream, "bool", bl, ba, lambda l, a: X.bool_oracle(l, a, checks), known, shrink_ok)
         st["bool_cases"] = len(bl)
+        st["bool_s"] = round(time.time() - tb, 1)
     if prop == "C03" and dom["rel"]:
         # decomposition of general linear constraints against established bounds, with a
         # dense sample of the solutions (domall_extra.lin_samples)
